@@ -12,6 +12,7 @@ from rv.core.tolerances import ULP_BAND_REL
 
 ANCHORS = ("operations.py",)
 THOROUGH_SHARDS = 12
+AMBIENT_TESTS = ["tests/test_operations.py"]
 
 _installed = False
 _log: list = []  # materialised streams observed by the wrapper (ambient)
